@@ -234,8 +234,8 @@ def run(chk):
                 if al["rejected_by_mask"]:
                     chk.nontriv((tag, c.get("seed"), al["n"]))
                 if all(a >= 0 and b >= 0 for a, b in al["obs"]):
-                    aligned.append((cT(cN(al["n"]), cL(cT(cL(map(cB, m)), cL(map(cN, xs)), cL(map(cN, rs))) for m, xs, rs in al["batches"]),
-                                       cL(cT(cN(a), cN(b)) for a, b in al["obs"])), tag, label))
+                    aligned.append(("(" + cT(str(al["n"]), cL(cT(str(xs[0] if xs else 0), cL(map(cB, m))) for m, xs, rs in al["batches"]),
+                                             cL(cT(str(a), str(b)) for a, b in al["obs"])) + ")%nat", tag, label))
                 else:
                     chk.fail("C08:draw-returned-an-unknown-point-or-row", f"{tag} {label}: draw(n={al['n']}) returned a sample or a "
                              "log_q row that is none of the candidates / rows it computed", {"kind": kind, "float64": f64, "case": c})
@@ -261,7 +261,7 @@ def run(chk):
     tasks = [("glue_" + slug(what).replace("-", "_"), "chk_glue", items, 1500,
               f"correspondence: {what} = model glue recomputed in exact dyadic arithmetic from the recorded components "
               f"({len(items)} values)") for what, items in sorted(groups.items())]
-    tasks.append(("aligned", "chk_draw_aligned", aligned, 40,
+    tasks.append(("aligned", "chk_draw_aligned_seq", aligned, 6,
                   f"correspondence: ImportanceFlowProposal.draw returns (sample, log_q row) pairs = model draw_aligned on the "
                   f"recorded batches and masks ({len(aligned)} draws)"))
     tasks.append(("totals", "chk_total", totals, 1500,
